@@ -10,6 +10,7 @@ if HERE not in sys.path:
     sys.path.insert(0, HERE)
 
 NPROC = int(os.environ.get('VERIF_NPROC', '16'))
+MAXREC = 6000
 
 
 def _work(job):
@@ -22,6 +23,8 @@ def _work(job):
         return {'sid': sid, 'err': f'harness: {type(e).__name__}: {e}\n{traceback.format_exc()}', 'lines': None, 'nrec': 0}
     if row['err']:
         return {'sid': sid, 'err': row['err'], 'lines': None, 'nrec': len(row['log'])}
+    if len(row['log']) > MAXREC:
+        return {'sid': sid, 'err': 'oversize: scenario produced %d records' % len(row['log']), 'lines': None, 'nrec': len(row['log'])}
     try:
         lines = translate.translate(row, sid, cfg)
     except BaseException as e:  # noqa: BLE001
@@ -29,15 +32,38 @@ def _work(job):
     return {'sid': sid, 'err': None, 'lines': lines, 'nrec': len(row['log'])}
 
 
+def _work_chunk(chunk):
+    return [_work(j) for j in chunk]
+
+
 def run_jobs(jobs, nproc=None):
-    """jobs: list of (sid, scenario, cfg-or-None); returns list of result dicts in job order"""
+    """jobs: list of (sid, scenario, cfg-or-None); returns list of result dicts in job order.
+    A worker that dies takes only its chunk with it (those jobs are reported as harness errors)."""
+    from concurrent.futures import ProcessPoolExecutor
+    from concurrent.futures.process import BrokenProcessPool
     nproc = nproc or NPROC
     if nproc <= 1 or len(jobs) < 4:
         return [_work(j) for j in jobs]
+    size = max(1, min(20, len(jobs) // (nproc * 4) or 1))
+    chunks = [jobs[i:i + size] for i in range(0, len(jobs), size)]
+    out = [None] * len(chunks)
     ctx = mp.get_context('fork')
-    # recycle workers so that state leaked by one scenario cannot accumulate
-    with ctx.Pool(nproc, maxtasksperchild=200) as pool:
-        return pool.map(_work, jobs, chunksize=max(1, min(25, len(jobs) // (nproc * 4) or 1)))
+    pending = list(range(len(chunks)))
+    for attempt in range(3):
+        if not pending:
+            break
+        failed = []
+        with ProcessPoolExecutor(nproc, mp_context=ctx) as ex:
+            futs = {i: ex.submit(_work_chunk, chunks[i]) for i in pending}
+            for i, f in futs.items():
+                try:
+                    out[i] = f.result(timeout=600)
+                except (BrokenProcessPool, Exception) as e:  # noqa: BLE001
+                    failed.append(i)
+        pending = failed
+    for i in pending:
+        out[i] = [{'sid': j[0], 'err': 'harness: worker died', 'lines': None, 'nrec': 0} for j in chunks[i]]
+    return [r for c in out for r in c]
 
 
 if __name__ == '__main__':
